@@ -614,6 +614,7 @@ Section Rxn.
       RxRec h W q -> St n h0 h W -> Tr FP h W h2 W2 -> FPok h W FP ->
       ~ In (q_new q) FP -> ~ In (q_mets q) FP -> ~ In (q_genes q) FP -> RxRec h2 W2 q.
   Proof.
+    clear Hdlr Hbase_lo Hbase_nd.
     intros FP h W h2 W2 q [[W1 [W2' W3]] [Hlo [Hoc [Hmod [Hme [Hnd [Hge Hgs]]]]]]] HS HT Hi N1 N2 N3.
     pose proof (st_W _ _ _ _ HS _ W1) as L1. pose proof (st_W _ _ _ _ HS _ W2') as L2. pose proof (st_W _ _ _ _ HS _ W3) as L3.
     assert (get h2 (q_new q) = get h (q_new q)) as E1 by (apply (tr_same _ _ _ _ _ HT); auto; lia).
@@ -838,17 +839,28 @@ Section Rxn.
       RxInv h W RR -> (forall r, In r L -> exists oc, RxOld r oc) ->
       exists W2 RR2 h2,
         fold_left (copy_reaction T m' dlr dlm dlg) (map Ref L) (h, ok) = (h2, ok) /\
-        RxInv h2 W2 (RR ++ RR2) /\ map q_old RR2 = L /\ Tr FPr h W h2 W2.
+        RxInv h2 W2 (RR ++ RR2) /\ map q_old RR2 = L /\ Tr FPr h W h2 W2 /\
+        NoDup (map q_new RR2) /\ (forall q, In q RR2 -> List.length h <= q_new q).
   Proof.
     induction L as [|r L IH]; intros h W RR ok HI HL.
-    - exists W, [], h. rewrite app_nil_r. split; [reflexivity|]. split; [exact HI|]. split; [reflexivity|].
-      eapply tr_weaken; [apply tr_refl|]. intros x [].
+    - exists W, [], h. rewrite app_nil_r. split; [reflexivity|]. split; [exact HI|]. split; [reflexivity|]. split.
+      + eapply tr_weaken; [apply tr_refl|]. intros x [].
+      + split; [constructor|intros q []].
     - destruct (HL r (or_introl eq_refl)) as [oc Hoc].
       destruct (copy_reaction_desc h W RR r oc ok HI Hoc) as [W1 [nd [gs [h1 [E1 [HI1 HT1]]]]]].
-      destruct (IH h1 W1 _ ok HI1 (fun x Hx => HL x (or_intror Hx))) as [W2 [RR2 [h2 [E2 [HI2 [Hold HT2]]]]]].
+      destruct (IH h1 W1 _ ok HI1 (fun x Hx => HL x (or_intror Hx))) as [W2 [RR2 [h2 [E2 [HI2 [Hold [HT2 [Hnd Hge]]]]]]]].
       exists W2, ((r, List.length h, nd, gs) :: RR2), h2. cbn [map fold_left]. rewrite E1.
       split; [exact E2|]. rewrite <- app_assoc in HI2. split; [exact HI2|]. split; [cbn; f_equal; exact Hold|].
-      pose proof (tr_trans _ _ _ _ _ _ _ _ HT1 HT2) as H. eapply tr_weaken; [exact H|].
-      intros x Hx. apply in_app_or in Hx as [Hx|Hx]; exact Hx.
+      assert (List.length h < List.length h1) as Hlt.
+      { destruct HI1 as [HR1 [_ [_ [Hrecs1 _]]]].
+        assert (In (r, List.length h, nd, gs) (RR ++ [(r, List.length h, nd, gs)])) as Hin by (apply in_or_app; right; left; reflexivity).
+        destruct (Hrecs1 _ Hin) as [[Hw _] _]. apply (st_W _ _ _ _ (ri_st _ _ _ _ HR1)) in Hw.
+        unfold q_new in Hw. cbn [fst snd] in Hw. lia. }
+      split; [|split].
+      + pose proof (tr_trans _ _ _ _ _ _ _ _ HT1 HT2) as H. eapply tr_weaken; [exact H|].
+        intros x Hx. apply in_app_or in Hx as [Hx|Hx]; exact Hx.
+      + cbn [map]. unfold q_new at 1. cbn [fst snd]. constructor; auto. intro Hin.
+        apply in_map_iff in Hin as [q [Hq Hin]]. apply Hge in Hin. lia.
+      + intros q [<-|Hq]; [unfold q_new; cbn; lia|]. apply Hge in Hq. lia.
   Qed.
 End Rxn.
